@@ -35,6 +35,11 @@ class GenState(object):
         # Kafka's contract: a coordinator that has forgotten a member answers a JoinGroup quoting that
         # (non-empty) member id with UnknownMemberId.  `known` = member ids the coordinator remembers.
         self.known = set()
+        # environment habits of this scenario: a `stop()` before the first `start()` (state left over from a
+        # failed call), and a coordinator that answers heartbeats late (so that a heartbeat reply can arrive
+        # after the member has moved on: rejoined, changed generation, stopped)
+        self.pre_stop = rng.random() < 0.06
+        self.hb_release = rng.choice([1.0, 1.0, 0.15, 0.05])
 
     def forget(self):
         self.known.clear()
@@ -96,10 +101,15 @@ def choose(rng, gs, world, p_ok, p_stop, p_cerr):
     g = world.group
     e = world.enabled()
     if g._start_d is None and not g._stopping:
+        if gs.pre_stop:
+            gs.pre_stop = False
+            return ["stop"]
         return ["start"]
     acts = []
     for fam in REPLY_EVENT:
         if e.get(fam):
+            if fam == "hb" and rng.random() >= gs.hb_release:
+                continue  # the heartbeat reply is late
             acts.append(("reply", fam))
     for cid in e["down"]:
         acts.append(("down", cid))
